@@ -246,6 +246,15 @@ def run_check(pid, tier, seed, replay=None):
                 inconclusive.extend(mod.conclude(agg) or [])
             except Exception as e:  # a conclude() bug must not look like "held"
                 inconclusive.append(f'conclude() failed: {e!r}')
+    extra = [f'reach anchor {k.split("/", 1)[1]}: the source line it names was rewritten, only the behavioural counters decide reach' for k in sorted(agg['counters']) if k.startswith('reach_anchor_rewritten/')]
+    if hasattr(mod, 'notes') and not replay:
+        try:
+            extra += list(mod.notes(agg) or [])
+        except Exception as e:
+            extra.append(f'notes() failed: {e!r}')
+    for x in extra:
+        lines.append('note: ' + x)
+    agg['notes'] = extra + agg['notes']
     if unattributed and not real:
         lines.append(f'note: {unattributed} further violation events beyond the per-shard cap were all of the kinds listed above')
 
